@@ -11,6 +11,7 @@ import ClientGoVerif.Proofs.Perc
 import ClientGoVerif.Proofs.MvccTemporal
 import ClientGoVerif.Proofs.MvccAtomic
 import ClientGoVerif.Proofs.Told
+import ClientGoVerif.Proofs.MvccLockKept
 namespace CGV.Props.C03
 open CGV CGV.Mvcc CGV.Perc
 
@@ -114,6 +115,23 @@ theorem oracle_commit_ts_is_in_store (s : Store) (T c : Nat) (h : committedAtOf 
 /-- non-vacuity: a committed key is seen, a rolled-back one is not -/
 example : committedAtOf { kv := [([0x61], { writes := [⟨.put, 10, 20, [1]⟩] })] } 10 = some 20 := by decide
 example : committedAtOf { kv := [([0x61], { writes := [⟨.rollback, 10, 10, []⟩] })] } 10 = none := by decide
+
+/-- why Commit may not answer a definite error once its async-commit prewrites are all acknowledged (the defect repaired in
+    client-go 8b21e32 did exactly that for transactions older than MaxTxnTimeUse): from then on, recovery of the
+    transaction over the keys it locked finds every key locked and is answered "all locked, no commit ts" — the only
+    conclusion rule 4 of the monitor allows a resolver is to commit at the largest min_commit_ts -/
+theorem acknowledged_async_commit_is_recovered_as_committed (f : MvccFull.FStore)
+    (rs : List (PrewriteReq × MvccFull.FPrewriteExtra)) (T : Nat) (keys : List Bytes) (hs : KvSorted f.base.kv)
+    (hack : MvccFull.AckedAll T f rs)
+    (hkeys : ∀ k ∈ keys, ∃ q ∈ rs, q.1.startTS = T ∧ ∃ m ∈ q.1.mutations, m.key = k ∧ m.op ≠ .checkNotExists) :
+    (MvccFull.fcheckSecondaryLocks (MvccFull.fprewriteAll f rs) keys T).2.commitTS = 0 ∧
+      (MvccFull.fcheckSecondaryLocks (MvccFull.fprewriteAll f rs) keys T).2.locks.map (·.key) = keys := by
+  have hall : ∀ k ∈ keys, MvccFull.PrewriteLocked (MvccFull.fprewriteAll f rs) T k := by
+    intro k hk
+    obtain ⟨q, hq, hT, m, hm, rfl, hne⟩ := hkeys k hk
+    exact MvccFull.fprewriteAll_ack_locks f rs T hs hack q hq hT m hm hne
+  obtain ⟨h1, h2, _⟩ := MvccFull.sec_all_locked (MvccFull.fprewriteAll f rs) keys T hall
+  exact ⟨h1, h2⟩
 
 theorem owner_rollback_only_before_commit_point (m m' : MState) (client : String) (fate : Fate) (S : Nat) (keys : List Bytes)
     (h : Monitor.step m (.rollback client fate S keys) = .ok m') :
